@@ -337,7 +337,7 @@ theorem copyable_col_core {v : Variant} {g : DstCfg} {d : DstCol} {m : ChunkMeta
   obtain ⟨h1, h2, h3, h4, h5, h6, h7, h8, _⟩ := copyable_col_facts h
   obtain ⟨hs, hdict⟩ := encodingStatsMatch_sound h8
   obtain ⟨c1, c2, c3, c4, c5, c6, c7, c8, c9, _⟩ := copied_fields d m
-  refine ⟨by rw [c1, h3], by rw [c2, h4], ⟨by rw [c3, h1], hg, h2⟩, ?_, ?_, ⟨by rw [c6]; exact h6, by rw [c7]; exact h7⟩, ?_, by rw [c8]; exact hrows⟩
+  refine ⟨by rw [c1, h3], by rw [c2, h4], ⟨by rw [c3, h1], hg, h2⟩, ?_, ?_, (by rw [c7]; exact h7), ?_, by rw [c8]; exact hrows⟩
   · rw [c4]
     intro p hp
     obtain ⟨hne, s, hsm, hpt, henc⟩ := hf.1 p hp
@@ -372,8 +372,11 @@ theorem copyable_col_stats {d : DstCol} {m : ChunkMeta}
     (h : columnChunkIsCopyable .repaired d m = true) : ConformsStats d (copied d m) := by
   obtain ⟨_, _, _, _, _, _, _, _, hst⟩ := copyable_col_facts h
   have hst := hst rfl
-  obtain ⟨_, _, _, c4, _, _, _, _, c9, c10, c11, c12⟩ := copied_fields d m
+  obtain ⟨_, _, _, c4, _, c6', _, _, c9, c10, c11, c12⟩ := copied_fields d m
   unfold statisticsSettingsMatch at hst
+  by_cases s0 : (d.pageBounds != m.hasColumnIndex) = true
+  · simp [s0] at hst
+  rw [if_neg s0] at hst
   by_cases s1 : (!d.pageBounds && m.hasMinMax) = true
   · simp [s1] at hst
   by_cases s2 : (d.pageBounds && !m.hasMinMax && decide (m.numValues > m.nullCount)) = true
@@ -387,8 +390,8 @@ theorem copyable_col_stats {d : DstCol} {m : ChunkMeta}
   · rw [if_neg s1, if_neg s2, if_neg s3, if_neg s4, if_pos s5] at hst; cases hst
   by_cases s6 : (m.pages.any (fun p => if d.pageStats then !p.hasStats && !p.trivialStats else p.hasStats)) = true
   · rw [if_neg s1, if_neg s2, if_neg s3, if_neg s4, if_neg s5, if_pos s6] at hst; cases hst
-  simp at s1 s2 s3 s4 s5 s6
-  refine ⟨?_, ?_, ?_, ?_, ?_, ?_⟩
+  simp at s0 s1 s2 s3 s4 s5 s6
+  refine ⟨?_, ?_, ?_, ?_, ?_, ?_, ?_⟩
   · rw [c4]
     intro p hp
     have := s6 p hp
@@ -403,6 +406,9 @@ theorem copyable_col_stats {d : DstCol} {m : ChunkMeta}
     intro hl p hp
     have := s5 hl p hp
     omega
+  · have : (copied d m).hasColumnIndex = m.hasColumnIndex := by
+      simp [ChunkMeta.hasColumnIndex, c6']
+    rw [this]; exact s0.symm
   · rw [c11]; intro hb
     cases hmm : m.hasMinMax with
     | false => rfl
